@@ -409,6 +409,30 @@ def stage_targeted(ctx: Ctx, progs):
         judge_edit(ctx, 'root-header-edit', src, mode, (0, colon, 0, colon), ' ')
         judge_edit(ctx, 'root-header-brings-body', src, mode, (0, colon, 0, colon + 1), ':\n    foo()\n    if q:')
         judge_edit(ctx, 'root-header-brings-body', src, mode, (0, colon, 0, colon + 1), ': foo()\n    if q:')
+    # (4e) negative columns count from the end of THEIR line: the edit is the one made with the positive coordinates, for rectangles over lines of different lengths
+    for src in ['x = 1\ny = w = 2\nzzz = [a,\n b]\n', 'if a:\n    bb = 1\n    c = "é" + d\nq\n']:
+        lines_ = src.split('\n')
+        for ln in range(len(lines_) - 1):
+            for eln in range(ln, len(lines_) - 1):
+                for col in (0, 2, -1, -3, -len(lines_[ln])):
+                    for ecol in (-1, -2, -4, -len(lines_[eln]), len(lines_[eln])):
+                        pc = col if col >= 0 else len(lines_[ln]) + col
+                        pe = ecol if ecol >= 0 else len(lines_[eln]) + ecol
+                        if pc < 0 or pe < 0 or pc > len(lines_[ln]) or (ln, pc) > (eln, pe) or (col >= 0 and ecol >= 0):
+                            continue
+                        for new in ('', 'k', '\nk'):
+                            outs = []
+                            for c_, e_ in ((col, ecol), (pc, pe)):
+                                r_ = fst.FST(src, 'exec')
+                                try:
+                                    r_.put_src(new, ln, c_, eln, e_, 'reparse')
+                                    outs.append((r_.src, ast.dump(r_.a, include_attributes=True)))
+                                except Exception as e:
+                                    outs.append(('!' + type(e).__name__, r_.src))
+                            ctx.tick(('neg-coords', src, ln, col, eln, ecol, new), 'raw:negative-coordinates')
+                            if outs[0] != outs[1]:
+                                ctx.violation('negative-coordinates', 'a raw edit given with negative columns is not the edit made with the same positions counted from the start of their lines',
+                                              {'start_src': src, 'rect_negative': [ln, col, eln, ecol], 'rect_positive': [ln, pc, eln, pe], 'new': new, 'with_negative': outs[0][0][:200], 'with_positive': outs[1][0][:200]})
     # (5) line continuations and semicolons
     for src in CONT_PROGS:
         root = fst.FST(src, 'exec')
